@@ -38,7 +38,7 @@ namespace ci = cds::intrusive;
 
 namespace {
 
-const char* prop() { return vh::property() == "C18" ? "C18" : "C13"; }
+const char* prop() { return vh::property() == "C18" ? "C18" : vh::property() == "C19" ? "C19" : "C13"; }
 
 std::vector<Scenario> g_scen;
 
@@ -47,6 +47,10 @@ void family( std::string const& tname, int step, int bq = 2, int bt = 3 )
 {
     typedef SetAdapter<Set, Smr, Caps, prop> A;
     std::string base = tname + "/" + Smr::name();
+    if ( vh::property() == "C19" ) {
+        if ( Caps::safe_iter::value ) add_iter_programs<A, Caps>( g_scen, base, { 0, 2, 4, 6, 5 }, { 0, 1, 2, 3, 4, 5, 6, 7 }, bq, bt );     // the new key 5 goes between 4 and 6
+        return;
+    }
     bool del = Caps::has_erase::value;
     std::vector<int> ops = del ? std::vector<int>{ INS, DEL, HAS } : std::vector<int>{ INS, HAS, FIND_F };
     add_set_programs<A>( g_scen, base, set_grammar( ops, { 1, 2 }, 2, "g" ), 2, 3, step, bq, bt );
@@ -68,7 +72,7 @@ struct tr_cmp: public cc::michael_list::traits { typedef item_cmp compare; typed
 struct tr_less: public cc::lazy_list::traits { typedef item_less less; typedef cds::atomicity::item_counter item_counter; };
 struct tr_cmp: public cc::lazy_list::traits { typedef item_cmp compare; typedef cds::atomicity::item_counter item_counter; };
 #elif FAMILY == 3
-struct caps_iter: caps_hp { typedef std::true_type update_replaces; };
+struct caps_iter: caps_hp { typedef std::true_type update_replaces; typedef std::true_type safe_iter; typedef std::true_type has_erase_at; };
 struct tr_less: public cc::iterable_list::traits { typedef item_less less; typedef cds::atomicity::item_counter item_counter; };
 struct tr_cmp: public cc::iterable_list::traits { typedef item_cmp compare; typedef cds::atomicity::item_counter item_counter; };
 #elif FAMILY == 4
@@ -81,7 +85,7 @@ struct caps_nogc_list: caps_nogc { typedef std::false_type has_update; typedef s
 #elif FAMILY == 6 || FAMILY == 7
 typedef node_disposer<prop> disp;
 struct caps_i: caps_hp { typedef std::true_type has_unlink; typedef std::false_type has_emplace; };
-struct caps_i_iter: caps_i { typedef std::true_type update_replaces; };
+struct caps_i_iter: caps_i { typedef std::true_type update_replaces; typedef std::true_type safe_iter; typedef std::true_type has_erase_at; };
 struct caps_i_rcu: caps_rcu { typedef std::true_type has_unlink; typedef std::false_type has_emplace; };
 #endif
 
